@@ -11,7 +11,7 @@ ID = "C02"
 
 def make_plan(seed: int, tier: str, opts: dict) -> dict:
     r = random.Random(seed)
-    spec = common.gen_supported_spec(r, max_nodes=4 if tier == "quick" else 5)
+    spec = common.gen_supported_spec(r, max_nodes=4 if tier == "quick" else 6)
     M = opts.get("variants", 6)
     nsteps = r.randint(4, 10)
     ref = dict(eps_id=0, api="gym", nsteps=nsteps, ending="stop", rtf=1 if spec["open_loop"] else 0, strategy={"name": "rr"}, sseed=1, fair_k=64, stall_p=0.0, stall_max=0.0)
@@ -22,8 +22,9 @@ def make_plan(seed: int, tier: str, opts: dict) -> dict:
         if ep["api"] == "gym" and mode < 0.35:
             ep["pass_own_result"] = True
         eps.append(ep)
+    fresh = dict(driver.gen_episode(r, 0, api="gym", open_loop=spec["open_loop"], nsteps=nsteps, endings=("stop",), override_p=0.0), until_active=False) if r.random() < opts.get("fresh_p", 0.3) else None
     hot = r.choice([0.0, 0.0, 0.15, 0.4])  # pre-emption concentrated on lines touching shared lifecycle/queue fields
-    return dict(hot_rate=hot, spec=spec, seed=seed, episodes=eps, clock="sim", line_rate=r.choice([0.0, 0.0025, 0.01, 0.04]) if tier == "thorough" else r.choice([0.0, 0.0, 0.01]))
+    return dict(hot_rate=hot, fresh=fresh, spec=spec, seed=seed, episodes=eps, clock="sim", line_rate=r.choice([0.0, 0.0025, 0.01, 0.04]) if tier == "thorough" else r.choice([0.0, 0.0, 0.01]))
 
 
 def run_plan(plan: dict, replay=None) -> dict:
@@ -70,7 +71,20 @@ def run_plan(plan: dict, replay=None) -> dict:
             if ref_obs[1][k] != eo.obs[k]:
                 viol.append(dict(clause="c02-supervisor-observation-differs", signature="c02-obs", ref_episode=ref_obs[0], episode=i, index=k, a=str(ref_obs[1][k])[:400], b=str(eo.obs[k])[:400]))
                 break
-    res.update(common.summarise(ro, plan, extra_sums=dict(variants_compared=compared, record_unavailable=unavailable)))
+    # the same spec and initial state on a *fresh* graph object (new threads, new warm-up) must give the same episode as well
+    fresh_cmp = 0
+    if plan.get("fresh") and ref_i is not None and not viol:
+        ro2 = driver.execute(dict(plan, episodes=[plan["fresh"]], hot_rate=0.0, line_rate=0.0))
+        if ro2.status == "ok" and ro2.episodes[0].record is not None:
+            fresh_cmp = 1
+            diffs = oracles.compare_prefix(canon[ref_i], oracles.canon_episode(ro2.episodes[0].record, ro2.nodes), skip_last_output_of=sup)
+            if diffs:
+                viol.append(dict(clause="c02-record-differs-on-a-fresh-graph", signature="c02-fresh", ref_episode=ref_i, diff=diffs[0]))
+            if ref_obs is not None:
+                m = min(len(ref_obs[1]), len(ro2.episodes[0].obs))
+                if ref_obs[1][:m] != ro2.episodes[0].obs[:m]:
+                    viol.append(dict(clause="c02-supervisor-observation-differs-on-a-fresh-graph", signature="c02-fresh-obs"))
+    res.update(common.summarise(ro, plan, extra_sums=dict(variants_compared=compared, record_unavailable=unavailable, fresh_graph_comparisons=fresh_cmp)))
     apis = {}
     for eo in ro.episodes:
         key = eo.plan["api"] + ("+own" if eo.plan.get("pass_own_result") else "")
